@@ -8,6 +8,7 @@ use rustc_middle::mir::*;
 use rustc_middle::ty::{self, GenericArgsRef, Instance, TyCtxt, TypeVisitableExt};
 
 pub struct Cx<'a, 'tcx> {
+    pub promoted_defs: Vec<Vec<String>>,
     pub tcx: TyCtxt<'tcx>,
     pub body: &'a Body<'tcx>,
     pub did: DefId,
@@ -28,7 +29,20 @@ pub fn dump_fn<'tcx>(tcx: TyCtxt<'tcx>, did: DefId, n_bb: &mut usize) -> Option<
     let kind = tcx.def_kind(did);
     let body: &Body<'tcx> = tcx.optimized_mir(did);
     let env = ty::TypingEnv::post_analysis(tcx, did);
-    let cx = Cx { tcx, body, did, env };
+    // per promoted body: the named constants it mentions (e.g. `&P::MODULUS` promoted in generic code)
+    let mut promoted_defs: Vec<Vec<String>> = Vec::new();
+    for pb in tcx.promoted_mir(did).iter() {
+        let mut names = Vec::new();
+        for bbd in pb.basic_blocks.iter() {
+            for st in &bbd.statements {
+                if let StatementKind::Assign(b) = &st.kind {
+                    collect_const_defs(tcx, &b.1, &mut names);
+                }
+            }
+        }
+        promoted_defs.push(names);
+    }
+    let cx = Cx { promoted_defs, tcx, body, did, env };
     let (file, line) = span_str(tcx, tcx.def_span(did));
     let mut f: Vec<(&'static str, J)> = vec![
         ("id", J::S(path_str(tcx, did))),
@@ -200,10 +214,26 @@ impl<'a, 'tcx> Cx<'a, 'tcx> {
                 }
                 if let Some(p) = uv.promoted {
                     o.push(("promoted", J::I(p.as_usize() as i128)));
+                    if uv.def == self.did {
+                        if let Some(names) = self.promoted_defs.get(p.as_usize()) {
+                            if !names.is_empty() {
+                                o.push(("pdefs", J::A(names.iter().map(|n| J::S(n.clone())).collect())));
+                            }
+                        }
+                    }
                 }
                 if !uv.args.has_non_region_param() && uv.promoted.is_none() {
                     if let Ok(v) = tcx.const_eval_resolve(self.env, uv, c.span) {
                         val = Some(v);
+                    }
+                }
+                if !uv.args.has_non_region_param() && uv.promoted.is_some() && !ty.has_non_region_param() {
+                    // closed promoted (e.g. the modulus literal inside derived field code): decode it
+                    let r = std::panic::catch_unwind(std::panic::AssertUnwindSafe(|| {
+                        tcx.const_eval_resolve(ty::TypingEnv::fully_monomorphized(), uv, c.span).ok()
+                    }));
+                    if let Ok(Some(v)) = r {
+                        o.push(("pv", crate::consts::decode_value(tcx, v, ty)));
                     }
                 }
             }
@@ -489,6 +519,32 @@ impl<'a, 'tcx> Cx<'a, 'tcx> {
                 ("tgts", J::A(targets.iter().map(|b| bbj(*b)).collect())),
             ]),
             TerminatorKind::Yield { .. } | TerminatorKind::CoroutineDrop => J::obj(vec![("k", J::s("coroutine"))]),
+        }
+    }
+}
+
+fn collect_const_defs<'tcx>(tcx: TyCtxt<'tcx>, rv: &Rvalue<'tcx>, out: &mut Vec<String>) {
+    let mut ops: Vec<&Operand<'tcx>> = Vec::new();
+    match rv {
+        Rvalue::Use(o, _) | Rvalue::Repeat(o, _) | Rvalue::Cast(_, o, _) | Rvalue::UnaryOp(_, o) => ops.push(o),
+        Rvalue::BinaryOp(_, ab) => {
+            ops.push(&ab.0);
+            ops.push(&ab.1);
+        }
+        Rvalue::Aggregate(_, v) => {
+            for o in v.iter() {
+                ops.push(o);
+            }
+        }
+        _ => {}
+    }
+    for o in ops {
+        if let Operand::Constant(c) = o {
+            if let Const::Unevaluated(uv, _) = c.const_ {
+                if uv.promoted.is_none() {
+                    out.push(path_str(tcx, uv.def));
+                }
+            }
         }
     }
 }
